@@ -40,19 +40,18 @@ def check_valence(graph, explicit_h=False, stats=None):
     for node, data in graph.nodes(data=True):
         element = data.get("element")
         if element == "H":
-            deg = graph.degree(node)
+            # a zero-order edge (the '.' of a salt) is not a bond
+            deg = sum(1 for nb in graph[node] if float(graph.edges[node, nb].get("order", 1) or 0) > 0)
             if deg != 1:
                 if deg == 0 and len(graph) == 1:
                     continue
                 out.append("hydrogen %r is bonded to %d atoms" % (node, deg))
                 continue
-            anchor = next(iter(graph[node]))
+            anchor = next(nb for nb in graph[node] if float(graph.edges[node, nb].get("order", 1) or 0) > 0)
             if data.get("single_h_frag") or graph.nodes[anchor].get("element") == "H":
                 continue
             attrs = ["fragid", "fragname"] + ([] if explicit_h else ["weight"])
             for attr in attrs:
-                if attr == "fragid" and explicit_h:
-                    continue
                 if data.get(attr) != graph.nodes[anchor].get(attr):
                     out.append("hydrogen %r has %s=%r but its atom %r has %r"
                                % (node, attr, data.get(attr), anchor, graph.nodes[anchor].get(attr)))
@@ -62,6 +61,8 @@ def check_valence(graph, explicit_h=False, stats=None):
         heavy = 0.0
         for nb in graph[node]:
             order = graph.edges[node, nb].get("order", 1)
+            if float(order or 0) == 0:
+                continue
             if graph.nodes[nb].get("element") == "H":
                 nh += 1
                 if order != 1:
